@@ -110,7 +110,7 @@ class EntryTask(CoreTask):
 
     def _run_module_validate(self, res):
         d = self.d
-        for explicit in (True, False):
+        for explicit in (True, False, "format_checker"):
             repo, ctx, st, vm, validator, I = self.setup()
             g, m, c = entry_hooks(ctx, vm, None)
             ctx.config["getattr_hook"], ctx.config["method_hook"] = g, m
@@ -126,16 +126,25 @@ class EntryTask(CoreTask):
             st.unit = unit
             B = st.ghost["scope"]
             kwargs = {"cls": ClassVal(d)} if explicit else {}
+            if explicit == "format_checker":
+                # extra keyword arguments go to the validator's constructor only; check_schema still gets exactly the schema
+                kwargs["format_checker"] = Opaque("format_checker", [])
             outs = I.run_unit(unit, st, [instance, schema], kwargs)
             res["paths"] += len(outs)
             obls = list(ctx.obligations)
             wf = core.WF[d](schema.t)
             v = core.Vp(B, schema.t, instance.t)
             n = 0
-            tag = "explicit-cls" if explicit else "cls-from-$schema"
+            tag = "with-format-checker" if explicit == "format_checker" else ("explicit-cls" if explicit else "cls-from-$schema")
             for s, ctl in outs:
                 n += 1
                 ev = s.ghost.get("events", ())
+                if explicit == "format_checker" and not (ctl[0] == "raise" and getattr(ctl[1], "cls", "") == "SchemaError"):
+                    # verdicts with a format checker are C12's; here only: the checker reaches the constructor
+                    obls.append(core.Obligation("%s/F/%s.checker-to-constructor#%d" % (self.name, tag, n), "F", s.pc,
+                                                z3.BoolVal(bool(s.ghost.get("ctor_extra")) and "construct" in ev),
+                                                note="extra keyword arguments are handed to the validator's constructor"))
+                    continue
                 if ctl[0] == "raise" and getattr(ctl[1], "cls", "") == "SchemaError":
                     ok_order = "construct" not in ev
                     obls.append(core.Obligation("%s/F/%s.schema-error#%d" % (self.name, tag, n), "F", s.pc,
